@@ -49,7 +49,8 @@ def gen_history(r, mx):
     elif c < 0.3:
       ops.append(('store', 'new%d' % len(ops), 100))   # new metric at the limit
     else:
-      ops.append(('store', r.choice(metrics), 100 + r.randrange(0, mx + 3)))
+      # sub-second clients: 100.5 is a different datapoint than 100 (it grows the cache and needs room like any other)
+      ops.append(('store', r.choice(metrics), 100 + r.randrange(0, mx + 3) + (r.choice([0.25, 0.5]) if r.random() < 0.2 else 0)))
   ndr = r.randint(0, 3)
   return ops, ndr
 
